@@ -315,6 +315,64 @@ theorem scan_binds_partial (hs : HsD D) (lim lim' : Limits) (ss ss' : List Bytes
   · intro r hr; obtain ⟨s, _, hs'⟩ := hacc r hr; exact ⟨s, hs'⟩
   · intro r hr; obtain ⟨s, _, hs'⟩ := hacc' r hr; exact ⟨s, hs'⟩
 
+/-! ### The two entry digest functions (`Tx/EntryDigest.lean`)
+
+`TxEntryDigest_v1_1` (header version 0, data written by immudb ≤ 1.1) hashes only key and value
+hash and REFUSES entries carrying kv metadata; `TxEntryDigest_v1_2` (version 1) hashes the
+metadata.  Either way the metadata of every entry is authenticated by `Eh`, hence by the Alh:
+for version 0 "must be empty", for version 1 "these bytes". -/
+
+/-- **The legacy digest accepts an entry iff NO kv-metadata attribute is set.**  The Go guard is on
+the serialised length (`len(e.md.Bytes()) > 0`), which is non-zero for `deleted`, for `expiresAt`,
+for `nonIndexable` and for every combination (a guard enumerating attributes has to list them all). -/
+theorem legacy_digest_accepts_iff_no_attribute (hs : HsD D) (m : Option KVMd) (key : Bytes)
+    (vLen vOff : Nat) (hVal : D) :
+    (∃ d, entryDigestV11 hs (Entry.ofKVMd m key vLen vOff hVal) = .ok d) ↔ (m = none ∨ m = some {}) :=
+  EDAux.v11_accepts_iff hs m key vLen vOff hVal
+
+/-- **Under each digest function, equal digests mean equal entries INCLUDING the metadata** (key,
+kv metadata, value hash), or a collision of `H` is exhibited.  `v` is the header version the
+digest function is selected by (`hdr.TxEntryDigest()`); the bounds are those of the 16-bit length
+fields of the record. -/
+theorem digest_binds_entry (hs : HsD D) (v : Nat) (e e' : Entry D) (d : D)
+    (hfit : e.key.length < 2 ^ 16 ∧ e.md.length < 2 ^ 16)
+    (hfit' : e'.key.length < 2 ^ 16 ∧ e'.md.length < 2 ^ 16)
+    (h : digestFunc hs v e = .ok d) (h' : digestFunc hs v e' = .ok d) :
+    (e.md, e.key, e.hVal) = (e'.md, e'.key, e'.hVal) ∨ HColl hs.toHs :=
+  EDAux.digestFunc_binds hs v e e' d hfit hfit' h h'
+
+/-- **… and equal `Eh` means equal entry lists including the metadata**: two entry lists of the
+same length (the count is a header field, covered by the Alh) for which the checked computation
+(`readEntry` digests + `htree.BuildWith`, or `Tx.BuildHashTree`) yields the same root agree on
+key, kv metadata and value hash of every entry, or a collision of `H` is exhibited. -/
+theorem eh_binds_entries (hs : HsD D) (v : Nat) (es es' : List (Entry D)) (d : D)
+    (hfit : ∀ e ∈ es, e.key.length < 2 ^ 16 ∧ e.md.length < 2 ^ 16)
+    (hfit' : ∀ e ∈ es', e.key.length < 2 ^ 16 ∧ e.md.length < 2 ^ 16)
+    (hlen : es.length = es'.length)
+    (h : ehChecked hs v es = .ok d) (h' : ehChecked hs v es' = .ok d) :
+    es.map (fun e => (e.md, e.key, e.hVal)) = es'.map (fun e => (e.md, e.key, e.hVal)) ∨ HColl hs.toHs :=
+  EDAux.ehChecked_binds hs v es es' d hfit hfit' hlen h h'
+
+/-- The parser uses exactly these functions: the `Eh` of an accepted record is `ehChecked` of its
+entries under its header version (so no accepted entry was refused by its digest function). -/
+theorem parse_eh_checked (hs : HsD D) (lim : Limits) (bs : Bytes) (r : Record D)
+    (h : parseTx hs lim bs = .ok r) : ehChecked hs r.hdr.version r.entries = .ok r.hdr.eh :=
+  parseTx_eh_checked_thm hs lim bs r h
+
+/-- **Structure-aware insertion of kv metadata into a legacy record is refused.**  Take a record
+as the writer produced it with header version 0, give ANY entry ANY non-empty kv metadata
+(`deleted`, `expiresAt`, `nonIndexable`, any combination) and re-serialise it with every length
+field consistent — with the original trailing Alh (no hash changes: `v1_1` does not hash the
+metadata) or any other: every integrity-checked read answers `ErrMetadataUnsupported`, whatever
+follows the record in the log. -/
+theorem legacy_metadata_insertion_rejected (hs : HsD D) (lim : Limits) (r : Record D)
+    (pre post : List (Entry D)) (e : Entry D) (k : KVMd) (a : D) (bs rest : Bytes)
+    (wf : Record.WF hs lim r) (hv : r.hdr.version = 0) (hes : r.entries = pre ++ e :: post)
+    (kwf : k.WF) (hk : k ≠ {})
+    (hser : serializeTx hs ⟨r.hdr, pre ++ { e with md := k.bytes } :: post, a⟩ = some bs) :
+    parseTx hs lim (bs ++ rest) = .error .mdUnsupported :=
+  v0_md_insertion_rejected_thm hs lim r pre post e k a bs rest wf hv hes kwf hk hser
+
 /-! ## Non-vacuity: the hypotheses are satisfiable (toy constant hash, concrete record) -/
 
 section Examples
@@ -409,6 +467,43 @@ example : ∃ ss rs, scanAsc constHsD lim0 none ss = .ok (rs : List (Record Dige
   have hp := parse_serialize constHsD lim0 r0 bs [] r0_wf hser
   have hp' : parseTx constHsD lim0 bs = .ok r0 := by simpa using hp
   exact ⟨[bs], [r0], by simp [scanAsc, scanStepAsc, hp'], by simp⟩
+
+/-- `legacy_metadata_insertion_rejected`: a well-formed version-0 record exists, and its entry
+re-serialised with the non-indexable attribute (`mdLen = 1`, `md = 02`) is refused. -/
+private def h0v : TxHeader Digest := ⟨1, 5, 0, z, z, 0, [], 1, ehOf constHsD 0 [e0]⟩
+private def r0v : Record Digest := ⟨h0v, [e0], z⟩
+
+private theorem e0_wf0 : Entry.WF 0 lim0 e0 :=
+  { md := ⟨{}, ⟨kv0_wf, rfl⟩⟩, md_v0 := (fun _ => rfl), key_max := (by decide), key_fit := (by decide),
+    vLen_fit := (by decide), vOff_fit := (by decide) }
+
+private theorem r0v_wf : Record.WF constHsD lim0 r0v :=
+  { id_pos := (by decide), id_fit := (by decide), ts_fit := (by decide), bl_fit := (by decide), ver := .inl rfl,
+    md_v0 := (fun _ => rfl),
+    md := ⟨{}, ⟨txmd0_wf, rfl⟩⟩,
+    ne := rfl, ne_max := (by decide), ne_fit0 := (by intro _; decide), ne_fit := (by decide),
+    entries := (by intro e he; simp [r0v] at he; subst he; exact e0_wf0),
+    eh := rfl, alh := rfl }
+
+example : ∃ bs, serializeTx constHsD ⟨r0v.hdr, [] ++ { e0 with md := ({ nonIndexable := true } : KVMd).bytes } :: [], z⟩ = some bs ∧
+    parseTx constHsD lim0 (bs ++ []) = .error .mdUnsupported := by
+  have hs : ∃ bs, serializeTx constHsD ⟨r0v.hdr, [] ++ { e0 with md := ({ nonIndexable := true } : KVMd).bytes } :: [], z⟩ = some bs := by
+    simp [serializeTx, serializeHeader, r0v, h0v]
+  obtain ⟨bs, hser⟩ := hs
+  exact ⟨bs, hser, legacy_metadata_insertion_rejected constHsD lim0 r0v [] [] e0 { nonIndexable := true } z bs []
+    r0v_wf rfl rfl (by intro t h; cases h) (by decide) hser⟩
+
+/-- `legacy_digest_accepts_iff_no_attribute`: refused for each single attribute, accepted without. -/
+example : entryDigestV11 constHsD (Entry.ofKVMd (some { nonIndexable := true }) [107] 3 0 z) = .error .mdUnsupported ∧
+    entryDigestV11 constHsD (Entry.ofKVMd (some { deleted := true }) [107] 3 0 z) = .error .mdUnsupported ∧
+    entryDigestV11 constHsD (Entry.ofKVMd (some { expiresAt := some 7 }) [107] 3 0 z) = .error .mdUnsupported ∧
+    (∃ d, entryDigestV11 constHsD (Entry.ofKVMd none [107] 3 0 z) = .ok d) := by
+  refine ⟨rfl, rfl, rfl, _, rfl⟩
+
+/-- `digest_binds_entry` / `eh_binds_entries` / `parse_eh_checked`: successful evaluations exist for both functions. -/
+example : (∃ d, digestFunc constHsD 0 e0 = .ok d) ∧ (∃ d, digestFunc constHsD 1 { e0 with md := [2] } = .ok d) ∧
+    (∃ d, ehChecked constHsD 0 [e0, e1] = .ok d) ∧ (∃ d, ehChecked constHsD 1 [e0, { e1 with md := [0] }] = .ok d) :=
+  ⟨⟨_, rfl⟩, ⟨_, rfl⟩, ⟨_, rfl⟩, ⟨_, rfl⟩⟩
 
 end Examples
 
